@@ -283,6 +283,17 @@ macro_rules! backend_impl {
                 };
                 let e2s = |r: anyhow::Result<()>| r.map_err(|e| err_string(&e));
                 let name = f[0];
+                // destination and source may not alias (checked before any operand is built, as in the model)
+                if matches!(
+                    name,
+                    "add_pt_znx" | "sub_pt_znx" | "mul_pt_znx" | "mul_add_pt_znx" | "mul_sub_pt_znx" | "add_cst_znx" | "sub_cst_znx"
+                ) && f.len() > 2
+                {
+                    let (d, a) = (slot(f[1])?, slot(f[2])?);
+                    if d == a {
+                        return Err("bad-slot".to_string());
+                    }
+                }
                 let sub = name.starts_with("sub") || name.starts_with("mul_sub");
                 let sgn = if sub { -1.0 } else { 1.0 };
                 // operand plaintext / constant values derived from the step number
